@@ -20,7 +20,7 @@ ASSUMPTIONS = ['numeric option values range over [-3,4] (reals) / -3..4 (integer
 BOUNDS = {'quick': '45 numeric options x any value in range; 12 cross-option rules with all presence-flag combinations; 14 answer formats',
           'thorough': 'same (the space is exhausted in the quick tier)'}
 OUTSIDE = ['non-finite percentage texts (nan%, inf%)', 'wrong-type values beyond the catalogue', 'IntegralGrader options (scipy absent)', 'plugin-registered defaults']
-DEADLINE = {'quick': 150, 'thorough': 600}
+DEADLINE = {'quick': 600, 'thorough': 600}
 FUNCS = ['ObjectWithSchema.__init__/validate_config', 'voluptuous.Schema/Range/All/Any/NotIn/Length/Coerce (vendored)', 'validatorfuncs.Positive/NonNegative/NumberRange/'
          'PercentageString/is_shape_specification', 'ItemGrader.schema_answers/validate_single_answer', 'ListGrader.__init__/schema_answers/validate_grouping',
          'SingleListGrader.__init__', 'MathMixin.validate_math_config', 'math_helpers.validate_blacklist_whitelist_config/validate_no_collisions/warn_if_override',
